@@ -690,6 +690,8 @@ class ValueGen:
                     od = {"OD": [[c, {"L": [u, e1 if e1 != 1 else 2]}]]}
                 kw = {"unknown_unit_caption": "cap D"} if rng.random() < 0.15 else None
                 op = self.op("mk.q.derived", "Quantity", "CreateDerived", [od], kw=kw)
+                if kw is None and rng.random() < 0.12:
+                    op = self.op("mk.q.derived", "Quantity", "CreateDerived", [od, "cap P"])  # caption given positionally
         elif form == "ctor":
             op = self.op("mk.q.ctor", "Quantity", "()", [c, u])
             intern = False  # direct construction is not interned (equal, not identical)
